@@ -156,7 +156,7 @@ func ruleC05Refs(p *Program, r *Run) {
 				if f := selField(info, sel); f != nil {
 					owner := TypeStr(info.TypeOf(sel.X))
 					switch {
-					case f.Name() == "name" && owner == "*pql.subquery":
+					case fldName(f) == "name" && owner == "*pql.subquery":
 						ok, how = true, "name of a subquery held in the list being built"
 					case f.Name() == "Name" && owner == "*parser.Ident":
 						ok, how = true, "a name written in the PQL source (table of the data source)"
